@@ -149,6 +149,72 @@ def evalJson (e : Pose) (ests gts : List Obj) (j : Json) : Except String (List (
         ests := (ea.zip ests).map (fun p => ⟨p.1, p.2⟩), gts := (ga.zip gts).map (fun p => ⟨p.1, p.2⟩) }
     pure [("eval_ego", outJson (evalFrame C f)), ("eval_map", outJson (evalFrame C (f.toMap e)))]
 
+/-! the whole HISTORY (optional part of a request): `"history": {"cfg": <as "eval">, "frames": [{"pose", "ests", "gts",
+"est_attrs", "gt_attrs"}…], "track": [{"mode", "targets": [[label, thr]…]}…]}` — every frame of a sequence with its own ego
+pose.  Response `hist_ego` / `hist_map`: the model's `evalFrame` of EVERY frame (as under "eval") and, per entry of "track",
+`trackingOf` = `get_scene_result` of a tracking run: one CLEAR per target label (ground-truth number, TP weight, FP, ID switches,
+MOTA, MOTP) and their sum.  Distances travel squared, so MOTP of the distance modes is in squared units (the harness compares
+MOTP for the IoU modes only). -/
+
+def getPose (pj : Json) : Except String Pose := do
+  let c ← getRat pj "c"; let s ← getRat pj "s"; let tau ← getRat pj "tau"
+  let tx ← getRat pj "tx"; let ty ← getRat pj "ty"; let tz ← getRat pj "tz"
+  pure { rot := ⟨c, s⟩, tau := tau, t := ⟨tx, ty, tz⟩ }
+
+def getEvalCfg (v : Json) : Except String EvalCfg := do
+  let mgr ← getParams (← v.getObjVal? "mgr")
+  let crit ← getParams (← v.getObjVal? "crit")
+  let maps ← (← getArr v "maps").toList.mapM (fun m => do
+    pure (PEval.Pipeline.MapCfg.mk (← getApMode (← getStr m "mode")) (← getRatList m "thrs")))
+  pure { mgr := mgr, crit := crit
+         matcher := { policy := ← getPolicy (← getStr v "policy"), mode := .centerDistance,
+                      targets := some (← getStrList v "targets"), thresholds := ← optRatList v "radii2",
+                      fpValidation := false }
+         dist := id
+         pfTargets := ← getNatList v "pf_targets", pfThrs := ← optRatList v "pf_thr2"
+         critTargets := ← getNatList v "crit_targets", mapTargets := ← getNatList v "map_targets"
+         maps := maps, trackMode := .centerDistance, trackTargets := [] }
+
+def getHistFrame (j : Json) : Except String (Pose × SFrame) := do
+  let e ← getPose (← j.getObjVal? "pose")
+  let ests ← (← getArr j "ests").toList.mapM getObj
+  let gts ← (← getArr j "gts").toList.mapM getObj
+  let ea ← (← getArr j "est_attrs").toList.mapM getAttr
+  let ga ← (← getArr j "gt_attrs").toList.mapM getAttr
+  pure (e, { frameId := .baseLink, pose := e
+             ests := (ea.zip ests).map (fun p => ⟨p.1, p.2⟩), gts := (ga.zip gts).map (fun p => ⟨p.1, p.2⟩) })
+
+def clearJson (o : PEval.Clear.Out) : Json :=
+  Json.mkObj [("g", jNat o.g), ("predict", jNat o.predictNum), ("tp", jRat o.acc.tp), ("fp", jNat o.acc.fp),
+    ("sw", jNat o.acc.sw), ("mota", jOptRat o.mota), ("motp", jOptRat o.motp)]
+
+def trackingJson (r : Except Err (List PEval.Clear.Out × (Option Rat × Option Rat × Nat))) : Json :=
+  match r with
+  | .error k => Json.mkObj [("err", Json.str k)]
+  | .ok (cs, (mota, motp, sw)) =>
+    Json.mkObj [("ok", Json.mkObj [("clears", jList clearJson cs),
+      ("sum", Json.mkObj [("mota", jOptRat mota), ("motp", jOptRat motp), ("sw", jNat sw)])])]
+
+def histJson (j : Json) : Except String (List (String × Json)) :=
+  match optField j "history" with
+  | none => pure []
+  | some h => do
+    let C ← getEvalCfg (← h.getObjVal? "cfg")
+    let hist ← (← getArr h "frames").toList.mapM getHistFrame
+    let tracks ← (← getArr h "track").toList.mapM (fun t => do
+      let mode ← getApMode (← getStr t "mode")
+      let tg ← (← getArr t "targets").toList.mapM (fun x => do
+        let a ← x.getArr?
+        match a.toList with
+        | [l, thr] => pure ((← l.getNat?), (← asRat thr))
+        | _ => throw "bad track target")
+      pure (mode, tg))
+    let one (fs : List SFrame) : Json :=
+      Json.mkObj [("frames", jList (fun f => outJson (evalFrame C f)) fs),
+        ("tracking", jList (fun (mt : PEval.AP.Mode × List (Nat × Rat)) =>
+          trackingJson (trackingOf { C with trackMode := mt.1, trackTargets := mt.2 } fs)) tracks)]
+    pure [("hist_ego", one (histEgo hist)), ("hist_map", one (histToMap hist))]
+
 def handle : Json → Except String Json := fun j => do
   let pj ← j.getObjVal? "pose"
   let c ← getRat pj "c"; let s ← getRat pj "s"; let tau ← getRat pj "tau"
@@ -158,6 +224,7 @@ def handle : Json → Except String Json := fun j => do
   let gts ← (← getArr j "gts").toList.mapM getObj
   let flt ← filterJson e gts j
   let ev ← evalJson e ests gts j
+  let hs ← histJson j
   -- score rows: the whole tables, or (large scenes) only the pairs `[i, j]` listed under "pairs"
   let rows ← match optField j "pairs" with
     | none =>
@@ -175,7 +242,7 @@ def handle : Json → Except String Json := fun j => do
         | _, _ => throw "pair index out of range")
       pure [("ego_rows", jList (fun (p : Obj × Obj) => rowJson (scoreRowEgo p.1 p.2)) sel),
             ("map_rows", jList (fun (p : Obj × Obj) => rowJson (scoreRowMap e (p.1.toMap e) (p.2.toMap e))) sel)]
-  pure (Json.mkObj (flt ++ ev ++ rows ++ [
+  pure (Json.mkObj (flt ++ ev ++ hs ++ rows ++ [
     ("ests", jList (objJson e) ests), ("gts", jList (objJson e) gts),
     ("same_gts_ego", jList (jList Json.bool) (sameTable gts)),
     ("same_gts_map", jList (jList Json.bool) (sameTable (gts.map (Obj.toMap e)))),
